@@ -44,8 +44,13 @@ func (c *Ctx) errRootsOf(f *ssa.Function) []*ssa.Function {
 func (c *Ctx) errHandledOnPaths(f *ssa.Function, call ssa.CallInstruction) (bool, string) {
 	roots := c.errRootsOf(f)
 	seen := 0
+	// the callee of the call in question stays opaque, so that the call is an event of the path and
+	// its error a value of its own (a module callee would otherwise be inlined and leave no trace)
+	std := c.stdOpaque()
+	callee := call.Common().StaticCallee()
+	opq := func(g *ssa.Function) bool { return std(g) || (callee != nil && g == callee) }
 	for _, r := range roots {
-		paths, trunc := c.Paths(r, PXConfig{Opaque: c.stdOpaque(), MaxVisits: 3, MaxDepth: 4, MaxPaths: 100000})
+		paths, trunc := c.Paths(r, PXConfig{Opaque: opq, MaxVisits: 3, MaxDepth: 4, MaxPaths: 100000})
 		if trunc || len(paths) == 0 {
 			return false, "path enumeration of " + fname(r) + " truncated"
 		}
